@@ -821,7 +821,7 @@ def oracle(ctx, g, res, st=None):
             exp_vars = g['expect_vars'][i]
             if len(per_var) != len(exp_vars):
                 ctx.violation('C17/pwvars/count', f'piecewise_variables returned {len(per_var)} variables for '
-                              f'{len(g["ts"])} thresholds', witness_of(g, res, i), len(exp_vars), len(per_var), how)
+                              f'{len(g["case"]["ts"])} thresholds', witness_of(g, res, i), len(exp_vars), len(per_var), how)
                 return nv + 1
             tot = math.fsum(per_var)
             if not close(tot, g['expect'][i], g['tol'], absl):
@@ -896,6 +896,10 @@ def corpus_gens():
             g['expect'] = [Fraction(e) for e in c['expect']]
         if 'expect_vars' in c:
             g['expect_vars'] = [[Fraction(e) for e in row] for row in c['expect_vars']]
+        if c.get('closed') == 'boxcox':      # rows carry x, beta_values carry l
+            l = fr(float.fromhex(c['case']['beta_values']['l']))
+            g['expect'] = [boxcox_closed(fr(float.fromhex(r['x'])), l) for r in c['case']['rows']]
+            g['tol'], g['absl'] = 1e-9, 1e-13
         coq_ok, coq_err = c['coq_ok'], c.get('coq_err', 'false')
 
         def coq(res, coq_ok=coq_ok, coq_err=coq_err):
